@@ -367,7 +367,8 @@ func (m *{{ .Name }}) Filter(fn filter{{ .CapitalizedName }}Func) {
 	m.mx.Lock()
 	defer m.mx.Unlock()
 
-	for _, k := range m.order {
+	// Iterate over a copy: delete shifts m.order in place.
+	for _, k := range append([]{{ .KeyType }}(nil), m.order...) {
 		if !fn(k, m.data[k]) {
 			m.delete(k)
 		}
